@@ -54,7 +54,8 @@ struct Variant {
     counts_given: (bool, bool),
     edge_extra_column: bool,
     /// whether the last row of each file ends with a newline
-    trailing_newline: bool,
+    /// how each file ends: 0 = the last row has no newline, 1 = one newline, 2 = a blank line after the last row
+    trailing_newline: u8,
 }
 
 /// free text of row i: ordinary CSV fields that begin with a character some readers treat specially
@@ -96,8 +97,10 @@ fn write_graph(dir: &Path, net: &Net, v: &Variant) -> (String, String) {
         vs.push_str(&(row.join(",") + "\n"));
     }
     let vp = dir.join(format!("vertices{}", ext));
-    if !v.trailing_newline {
+    if v.trailing_newline == 0 {
         vs.pop();
+    } else if v.trailing_newline == 2 {
+        vs.push('\n');
     }
     write(&vp, &vs, v.gzip);
     let mut es = String::from(if v.extra_column == 2 { "road_name,edge_id,src_vertex_id,dst_vertex_id,distance\n" } else if v.edge_extra_column { "edge_id,src_vertex_id,dst_vertex_id,distance,road_name\n" } else { "edge_id,src_vertex_id,dst_vertex_id,distance\n" });
@@ -111,8 +114,10 @@ fn write_graph(dir: &Path, net: &Net, v: &Variant) -> (String, String) {
         }
     }
     let ep = dir.join(format!("edges{}", ext));
-    if !v.trailing_newline {
+    if v.trailing_newline == 0 {
         es.pop();
+    } else if v.trailing_newline == 2 {
+        es.push('\n');
     }
     write(&ep, &es, v.gzip);
     (ep.to_str().unwrap().to_string(), vp.to_str().unwrap().to_string())
@@ -274,7 +279,7 @@ pub fn run(tier: Tier) -> i32 {
         for order in 0..6 {
             for extra_column in [0u8, 1, 2] {
                 for counts_given in [(true, true), (false, false), (true, false), (false, true)] {
-                    for trailing_newline in [true, false] {
+                    for trailing_newline in [1u8, 0, 2] {
                         variants.push(Variant { gzip, order, extra_column, counts_given, edge_extra_column: order % 2 == 1, trailing_newline });
                     }
                 }
@@ -448,7 +453,7 @@ pub fn run(tier: Tier) -> i32 {
     finish(
         &info,
         st,
-        "state = one edge/vertex list (all G(3,m,2) multigraphs with self loops, stars and hubs with in/out degree 0..8, isolated vertices); transition = one load of files written in one variant (plain/gzip x 6 vertex column orders x extra columns (none / a name in second place / free text in first place beginning with '#', '-', a space or a quote, in both files) x each of the two counts given or scanned (4 modes) x last row with/without trailing newline) through Graph::from_files and DefaultGraphBuilder, compared accessor by accessor with the lists; per-edge tables of 1..40 rows; bindings accessors; non-trivial = at least two edges",
+        "state = one edge/vertex list (all G(3,m,2) multigraphs with self loops, stars and hubs with in/out degree 0..8, isolated vertices); transition = one load of files written in one variant (plain/gzip x 6 vertex column orders x extra columns (none / a name in second place / free text in first place beginning with '#', '-', a space or a quote, in both files) x each of the two counts given or scanned (4 modes) x file ending (no final newline / one / a blank line after the last row)) through Graph::from_files and DefaultGraphBuilder, compared accessor by accessor with the lists; per-edge tables of 1..40 rows; bindings accessors; non-trivial = at least two edges",
         true,
         json!({"enumerated_family": spec.describe(), "max_degree": 8, "variants": 96}),
         vec!["vertex coordinates are written as the shortest decimal rendering of an f32, so the comparison is exact".into()],
